@@ -7,7 +7,7 @@
                      "unknown fields (as received), then declared fields (as declared)";
    [typed e d t v] : the generated type's value for v when v arrives in container encoding e at
                      depth d (the raw parts are the bytes of that encoding). *)
-From Aldrin Require Export Derive.Ty.
+From Aldrin Require Export Derive.Ty Derive.TDe.
 Open Scope N_scope.
 
 Definition leaf_of (l : lty) (v : Value) : bool :=
@@ -105,43 +105,31 @@ Fixpoint typed (e : epoch) (t : ty) (d : nat) (v : Value) {struct v} : option tv
       else if id =? 1 then match typed e b (S d) x with Some y => Some (XEnum 1 y) | None => None end
       else None
   | TStruct fs fb, VStruct l =>
-      (* every present field must be well-typed; then one slot per declared field *)
-      let field_ok (p : N * Value) :=
+      (* the event each wire field produces (None: that field is rejected), then the same
+         bookkeeping as the generated code: last assignment wins, required fields must be set *)
+      let event (p : N * Value) : option fevent :=
         match find_field fs (fst p) with
-        | Some (true, ft) => match typed e ft (S d) (snd p) with Some _ => true | None => false end
+        | Some (true, ft) =>
+            match typed e ft (S d) (snd p) with Some y => Some (FKnown (fst p) (Some y)) | None => None end
         | Some (false, ft) =>
-            match snd p with
-            | VNone => true
-            | VSome y => match typed e ft (S (S d)) y with Some _ => true | None => false end
-            | _ => false
+            match typed e (TOption ft) (S d) (snd p) with
+            | Some (XOpt o) => Some (FKnown (fst p) o)
+            | _ => None
             end
-        | None => match raw_of e (S d) (snd p) with Some _ => true | None => false end
+        | None =>
+            match raw_of e (S d) (snd p) with
+            | Some bs => Some (if fb then FUnknown (fst p) bs else FSkipped)
+            | None => None
+            end
         end in
-      let slot (f : N * (bool * ty)) : option (option tval) :=   (* None: required field missing *)
-        let hits := flat_map (fun p : N * Value =>
-          if fst p =? fst f then
-            if fst (snd f) then
-              match typed e (snd (snd f)) (S d) (snd p) with Some y => [Some y] | None => [] end
-            else match snd p with
-                 | VSome y => match typed e (snd (snd f)) (S (S d)) y with Some z => [Some z] | None => [] end
-                 | _ => [None]
-                 end
-          else []) l in
-        match hits with
-        | o :: _ => Some o
-        | [] => if fst (snd f) then None else Some None
-        end in
-      let unk := flat_map (fun p : N * Value =>
-        match find_field fs (fst p) with
-        | None => match raw_of e (S d) (snd p) with Some bs => [(fst p, bs)] | None => [] end
-        | Some _ => []
-        end) l in
-      if forallb field_ok l then
-        match opt_all (map slot fs) with
-        | Some slots => Some (XStruct slots (if fb then unk else []))
-        | None => None
-        end
-      else None
+      match opt_all (map event l) with
+      | Some evs =>
+          match build_slots fs evs with
+          | Ok slots => Some (XStruct slots (unknowns evs))
+          | Err _ => None
+          end
+      | None => None
+      end
   | TEnum vs fb, VEnum id x =>
       match find_variant vs id with
       | Some (Some vt) => match typed e vt (S d) x with Some y => Some (XEnum id y) | None => None end
